@@ -201,12 +201,13 @@ def _cleanup(st):
 
 
 def make_inputs(interp, c):
+    ghosts = {}
+    interp.reg.ghost_env = ghosts
+    for name, ty in c.ghosts.items():
+        ghosts[name] = ty.make(interp, 'ghost.' + name) if isinstance(ty, Ty) else ty
     args = {}
     for name, ty in c.params.items():
         args[name] = ty.make(interp, name) if isinstance(ty, Ty) else ty
-    ghosts = {}
-    for name, ty in c.ghosts.items():
-        ghosts[name] = ty.make(interp, 'ghost.' + name) if isinstance(ty, Ty) else ty
     return args, ghosts
 
 
@@ -295,6 +296,10 @@ def _run_path(interp, reg, c, func, rep):
                                                                      + list(allowed or ()))),
                           isinstance(exc, tuple(allowed)) if allowed else False,
                           {'kind': 'raises-only', 'exception': repr(exc)})
+    # vacuity guard: the path must be satisfiable, otherwise its obligations say nothing
+    if st.check() == z3.unsat:
+        st.obligations[:] = [o for o in st.obligations if o[3].get('kind') in ('callee-pre', 'loop-entry')]
+        raise PathAbort()
     if c.raises_only is not None and outcome[0] == 'return':
         st.oblige('%s : raises_only(%s)' % (fname, ', '.join(_exc_name(e) for e in list(c.raises) + list(c.may_raise)
                                                             + list(c.raises_only))), True, {'kind': 'raises-only'})
